@@ -193,6 +193,27 @@ Section Rx.
     - apply rx_processed in E. destruct E as (_ & _ & _ & Hd & _ & Ha & _). rewrite Hd, Ha, map_app, H. reflexivity.
     - destruct (rx_not_processed _ _ _ _ E) as (H1 & _ & H3 & _). rewrite H1, H3. exact H.
   Qed.
+  (* the connection is closed only when the failure counter has reached the integrity limit *)
+  Lemma closed_limit_step : forall s d, (closed s = true -> integrity_limit <= failures s) ->
+    closed (fst (rx s d)) = true -> integrity_limit <= failures (fst (rx s d)).
+  Proof.
+    intros s d H. unfold RxPipeline.rx. destruct (closed s) eqn:Ec; [cbn [fst]; auto|].
+    destruct (unprot d) as [[[[tpn n] hdr] ct]|]; [|cbn [fst]; rewrite Ec; discriminate].
+    destruct (aead_open _ hdr ct) as [p0|].
+    - destruct (sw_check _ _); cbn [fst closed]; try (rewrite Ec); discriminate.
+    - destruct (sw_check _ _); [|cbn [fst bump closed]; discriminate..].
+      destruct (N.leb_spec integrity_limit (failures s + 1)); cbn [fst bump closed failures]; [auto|discriminate].
+  Qed.
+
+  Theorem closed_only_at_limit : forall ds,
+    closed (rx_all init ds) = true -> integrity_limit <= failures (rx_all init ds).
+  Proof.
+    assert (G : forall ds s, (closed s = true -> integrity_limit <= failures s) ->
+                closed (rx_all s ds) = true -> integrity_limit <= failures (rx_all s ds)).
+    { induction ds as [|d t IH]; intros s H; cbn [RxPipeline.rx_all]; [exact H|].
+      apply IH. apply closed_limit_step. exact H. }
+    intros ds. apply G. cbn [init closed]. discriminate.
+  Qed.
 End Rx.
 
 (* ---- stateless reset ---- *)
